@@ -274,6 +274,10 @@ class IMAPConnection:
 
     async def start_tls(self) -> None:
         ssl_context = self.config.ssl_context
+        # Anything received in plain text behind the STARTTLS command must
+        # not be interpreted once TLS is active (RFC 3501 section 11.1).
+        # StreamReader has no public way to drop what it has buffered.
+        self.reader._buffer.clear()  # type: ignore[attr-defined]
         await self.writer.start_tls(ssl_context)
         self._print('%s <->| %s', '<TLS handshake>')
 
